@@ -613,6 +613,9 @@ func inNaturalLoop(b, h *ssa.BasicBlock) bool {
 		if !h.Dominates(p) {
 			continue
 		}
+		if b == h { // the header of a loop belongs to it
+			return true
+		}
 		if p == b || blockReachesAvoiding(b, p, h) {
 			return true
 		}
